@@ -27,6 +27,9 @@ func Catalogue() []NamedTree {
 		wh.F("top", "=top"), wh.F("e0", ""), wh.F("d/e1", ""), wh.F("d/one", "=1"),
 		wh.F("d/dd/two", "=22"), wh.F("d/dd/ddd/three", "=333"), wh.F("d/dd/ddd/e3", ""),
 		wh.F("a b/with space", "=sp"), wh.F(".hidden", "=h"), wh.F("UPPER.TXT", "=U"),
+		// dots: two in the middle of a name, three at the end of a directory name, a name of dots
+		wh.F("notes..txt", "=n"), wh.D("empty..dir"), wh.F("wait.../x", "=w"), wh.L("link..x", "top"), wh.F("saves../slot1", "=s"), wh.F("...", "=d"),
+		wh.F("upper.txt", "=u"), wh.F("\u00e9t\u00e9/na\u00efve", "=e"),
 	})
 	add("symlinks", wh.Build{
 		wh.F("a", "=target"), wh.D("d"), wh.F("d/f", "=df"),
